@@ -157,6 +157,17 @@ def gen_lines(rng, L, be, n_cheap, n_exp, hist, ophist, for_c06=False):
             al = rng.below(5)
             a = E()
             b = a if al >= 3 else E()
+            if al < 3 and rng.below(4) == 0:
+                # boundary pairs: raw sum at the reduction thresholds / raw difference around 0
+                D = L.dom(be)
+                if op == "fp_sub":
+                    b2 = a + rng.choice([-2, -1, 0, 1, 2])
+                else:
+                    T = rng.choice([L.p - 2, L.p - 1, L.p, L.p + 1, D - 1, D, D + 1, 2 * L.p - 1, 2 * L.p, D + L.p - 1, D + L.p, D + L.p + 1])
+                    b2 = T - a
+                if 0 <= b2 < D:
+                    b = b2
+                    hist["boundary_pair"] = hist.get("boundary_pair", 0) + 1
             add(op, al, a, b)
         elif k < 8:
             add(rng.choice(CHEAP1), rng.below(2), E())
